@@ -21,6 +21,39 @@ def stub_machine(path, names, stopper):
         machine_path=path, thread_stopper=stopper, options={"production": False})
 
 
+def fresh_process_state(fm_mod, yi_mod):
+    """Case isolation: give every case the process-wide state a freshly started mpf process has.
+    FileManager.is_busy and the module-level ruamel dumper of yaml_interface are globals that a previous
+    case may have left stuck / poisoned (that IS one of the findings; it must not leak into the next case)."""
+    fm_mod.FileManager.is_busy = False
+    old = getattr(yi_mod, "_yaml", None)
+    if old is not None and type(old).__name__ == "YAML":
+        from ruamel import yaml as r_yaml
+        fresh = r_yaml.YAML(typ="safe")
+        fresh.default_flow_style = False
+        yi_mod._yaml = fresh
+
+
+def swap_real_locks(sched, modules):
+    """A tree under test may guard FileManager.save with a real lock created at import time.  Under the
+    one-thread-at-a-time scheduler a writer blocking on a REAL lock would never hand the token back, so
+    module- and class-level Lock/RLock objects of the modules under test are replaced by scheduler-aware
+    ones for the duration of a case.  -> list of (owner, attribute, original) to restore."""
+    import _thread
+    from vlib.c15_sched import VLock
+    lock_types = (_thread.LockType, _thread.RLock)
+    out = []
+    for mod in modules:
+        owners = [mod] + [v for v in vars(mod).values()
+                          if isinstance(v, type) and getattr(v, "__module__", None) == mod.__name__]
+        for owner in owners:
+            for name, val in list(vars(owner).items()):
+                if isinstance(val, lock_types):
+                    setattr(owner, name, VLock(sched, reentrant=isinstance(val, _thread.RLock)))
+                    out.append((owner, name, val))
+    return out
+
+
 class History:
     """Offline-style checker run online: every distinct content observed on a target must be exactly one of
     the versions handed to save_all (or the initial content), and versions never go backwards."""
@@ -107,7 +140,7 @@ class Engine:
         self.save_order = []        # (seq, manager idx, version)
         self.seq = 0
         self.stop_seq = None
-        self.failures = []          # (seq, filename, repr(exc))
+        self.failures = []          # (seq, filename, repr(exc), injected?)
         self.save_calls = 0
         self.inflight = 0
         self.max_inflight = 0
@@ -116,7 +149,7 @@ class Engine:
         self._orig = {}
         self.events = []
         # --- fresh FileManager state for every case (class-level globals survive between cases)
-        fm_mod.FileManager.is_busy = False
+        fresh_process_state(fm_mod, yi_mod)
         fm_mod.FileManager.init()
         # --- shims (virtual time) and delay points
         mods = [dm_mod, fm_mod, yi_mod]
@@ -129,6 +162,7 @@ class Engine:
             import ruamel.yaml.emitter as r_emit
             deep_mods = [r_main, r_ser, r_rep, r_emit]
         self.n_codes = self.sched.install_monitoring(mods, deep_mods)
+        self._swapped = swap_real_locks(self.sched, mods)
         self._wrap()
         self.sched.on_token = self.observe
         # --- the managers (their constructor starts the writer thread through the shim)
@@ -165,7 +199,10 @@ class Engine:
             except BaseException as e:
                 if isinstance(e, Exception):
                     eng.seq += 1
-                    eng.failures.append((eng.seq, filename, repr(e)[:200]))
+                    injected = "(injected)" in str(e) or (
+                        isinstance(e, OSError) and bool(eng.fault) and eng.fault["kind"] == "blockdir"
+                        and eng._fault_matches(filename, temp=False))
+                    eng.failures.append((eng.seq, filename, repr(e)[:200], injected))
                     eng._note("write failed %s: %r" % (os.path.basename(filename), e))
                     eng._fault_consumed(filename)
                 raise
@@ -179,6 +216,37 @@ class Engine:
                     out.write("_v: 999999\npartial: [1, 2, {unterminated")
                 raise OSError(errno.ENOSPC, "No space left on device (injected)")
             return orig_ysave(self_y, filename, data)
+
+        class _FailingFile:
+            """File object handed to the YAML dumper while the 'dump_write' fault is armed: the write of the
+            dumper fails with EIO (an I/O error INSIDE the dump, like a full disk hit by the buffered writer)."""
+
+            def __init__(self, f, filename):
+                self._f, self._filename = f, filename
+
+            def write(self, data):
+                fl = eng.fault
+                if fl and fl["kind"] == "dump_write" and eng._fault_matches(self._filename, temp=True):
+                    raise OSError(errno.EIO, "Input/output error (injected)")
+                return self._f.write(data)
+
+            def __getattr__(self, name):
+                return getattr(self._f, name)
+
+            def __enter__(self):
+                return self
+
+            def __exit__(self, *a):
+                return self._f.__exit__(*a)
+
+        def v_open(filename, mode="r", *a, **kw):
+            f = open(filename, mode, *a, **kw)
+            fl = eng.fault
+            if fl and fl["kind"] == "dump_write" and "w" in mode and eng._fault_matches(filename, temp=True):
+                return _FailingFile(f, filename)
+            return f
+
+        self.yi_mod.open = v_open
 
         def replace(src, dst, *a, **kw):
             f = eng.fault
@@ -196,6 +264,8 @@ class Engine:
         self.fm_mod.FileManager.save = self._orig["fm_save"]
         self.yi_mod.YamlInterface.save = self._orig["y_save"]
         os.replace = self._orig["replace"]
+        if "open" in vars(self.yi_mod):
+            del self.yi_mod.open
         self._orig = {}
 
     def _note(self, s):
@@ -321,6 +391,8 @@ class Engine:
             self.fault_off()
         finally:
             self._unwrap()
+            for owner, name, real in getattr(self, "_swapped", []):
+                setattr(owner, name, real)
             self.sched.teardown()
-            self.fm_mod.FileManager.is_busy = False
+            fresh_process_state(self.fm_mod, self.yi_mod)
 
